@@ -209,6 +209,20 @@ class CallableToken(object):
 
 
 CALLABLE_TOKENS = [CallableToken("t%d" % i) for i in range(4)]
+
+
+class IdentityToken(object):
+    """An internal enum value compared by identity (an ordinary class instance: an ORM column, a handler object, a
+    sentinel): what a resolver receives has to be this very object, not a copy of it."""
+
+    def __init__(self, label):
+        self.label = label
+
+    def __repr__(self):
+        return "IdentityToken(%r)" % self.label
+
+
+IDENTITY_TOKENS = [IdentityToken("i%d" % i) for i in range(4)]
 VANISH = "value the serialiser maps to null"
 HOSTILE_ARGUMENT_NAMES = ["func", "self", "fn", "func", "self", "fn", "func", "self", "args", "kwargs", "cls", "key", "value", "node", "nodes", "default",
                           "type", "name", "resolver", "executor", "runtime", "then", "else_", "path", "field"]
@@ -335,7 +349,7 @@ class SchemaGen(object):
                 elif coded:
                     # python Enum members are internal values too (EnumType.from_python_enum)
                     val = rng.choice([i, (e.name, i), "internal_%d" % i, float(i) + 0.5, PY_ENUM_MEMBERS[i % len(PY_ENUM_MEMBERS)],
-                                      CALLABLE_TOKENS[i % len(CALLABLE_TOKENS)]])
+                                      CALLABLE_TOKENS[i % len(CALLABLE_TOKENS)], IDENTITY_TOKENS[i % len(IDENTITY_TOKENS)]])
                 e.values.append(SEnumValue(nm, val, self.desc(0.2), self.deprecation()))
             e.coded = coded
         for _ in range(rng.randint(0, 2)):
